@@ -36,8 +36,8 @@ import (
 )
 
 type c20xHdr struct {
-	Name string `json:"name"`
-	Val  string `json:"val"`
+	Name string   `json:"name"`
+	Vals []string `json:"vals"`
 }
 
 type c20xTok struct {
@@ -316,7 +316,9 @@ func (f *c20xFront) play(x *c20xExchange) (o c20xObs, skipped bool) {
 	}
 	req.Host = x.Host
 	for _, h := range x.Hdr {
-		req.Header.Set(h.Name, h.Val)
+		for _, v := range h.Vals {
+			req.Header.Add(h.Name, v)
+		}
 	}
 	sc, _ := json.Marshal(c20xScript{Info: x.Info, Status: x.Status, Framing: x.Framing, Chunks: x.Chunks, DelayMs: x.DelayMs})
 	req.Header.Set("X-Verif-Id", x.ID)
